@@ -19,7 +19,7 @@ def claim(pid, technique, text, ref, note=''):
 claim('C01', 'interprocedural must-check / fail-closed gate analysis on SSA (edge cuts on the CFG x soft-failure-bit product) + label provenance',
       'Static, all-paths: every non-skip success exit of (*verifier).Verify / VerifyBlob (found through the interfaces they implement) is reachable only through the passing edges of envelope parsing, '
       'signature verification, payload-type equality, payload decode, descriptor equality (OCI) or algorithm lookup + generator + digest/size/media-type equality (blob) and the required-metadata check; '
-      'failures stored in outcome.Error are sticky; integrity is enforce in every non-skip level literal and cannot be overridden; no map update, delete or clear on the verification call tree targets a map of the caller (the required metadata checked for one signature is what is checked for the next). This is a necessary structural condition of the property for every envelope, '
+      'notation.Verify hands the verifier the required-metadata map, artifact reference and plugin configuration of its own caller (option forwarding at the API boundary: no common field of the two option structs is left at its zero value); failures stored in outcome.Error are sticky; integrity is enforce in every non-skip level literal and cannot be overridden; no map update, delete or clear on the verification call tree targets a map of the caller (the required metadata checked for one signature is what is checked for the next). This is a necessary structural condition of the property for every envelope, '
       'descriptor, metadata map and level at once; it does not establish cryptographic validity (trusted: notation-core-go).', 'DESIGN.md 2/C01')
 
 claim('C02', 'typestate + must-check gate analysis on SSA, finite decision table of the predicate, who-may-read inventories, constant-table order',
